@@ -1,5 +1,6 @@
 import Revm.Util.Hex
 import Revm.Model.Interp
+import Revm.Model.InterpWf
 /-! Line-protocol driver of component `interp` (C25): per-instruction lockstep with the real
 `revm::interpreter::Interpreter`, and whole runs.
 
@@ -10,6 +11,8 @@ import Revm.Model.Interp
 * `i s <tag> <resp>` one instruction (`<tag>` = case.step, ignored); `<resp>` = `-` or `ok:word:bytes:cold:orig:pres:new:flags:deleg` (the scripted host answer)
 * `i ret <tag> <result>:<gas remaining>:<refunded>:<output>:<address|->` re-entry of a child result after an action
 * `i dump <tag>` full digests
+* `i wf <tag> <v>` EOF mode; `<v>` = verdict of the real `validate_eof_inner` on the container → `wfok v=<v>`, or `wf-gap v=1`
+  when the validator accepted a container that `wfCtxB` (hypothesis of the EOF theorems) rejects
   reply of `s`/`ret`: `pc= r= g= rf= n= top= sd= ms= md= rd=` [` h=<host call>`] [` act=<action>`] [` out=<len>:<digest>`],
   `panic` for a modelled Rust panic, `oob-code|oob-stack|oob-memory` for a modelled out-of-buffer access
 * `interp run <spec> <gas> <static> <code> <input> <target> <caller> <value> <env> <hostq> <childq> <keccakq>`
@@ -214,6 +217,13 @@ def handle (st : St) (toks : List String) : St × String :=
        | .halt r _ s' => ({ s := some s' }, stateStr r s')
        | .fault f => ({}, faultReply f))
     | _, _ => (st, "bad-op")
+  | ["wf", _tag, v], some s =>
+    -- `<v>`: did the real validator accept the container? then the well-formedness predicate of the proofs
+    -- (`wfCtxB`, the hypothesis of the EOF theorems of C25) has to hold
+    (match s.eof, parseBool? v with
+     | some c, some v =>
+       if v && !wfCtxB c then (st, "wf-gap v=1") else (st, s!"wfok v={if v then 1 else 0}")
+     | _, _ => (st, "bad-op"))
   | ["dump", _tag], some s =>
     (st, s!"stack={toHex (digestWords s.stack)} mem={lenDig (ctxOf s)} rd={lenDig s.returnData}")
   | _, _ => (st, "bad-op")
